@@ -28,7 +28,7 @@ RULE = (
 ASSUMPTIONS = [
     "tag groups are compared by lower-cased alphanumeric content (the documented case-insensitive merging)",
     "a method is attributed to an operation by the request it actually issues (method + path template match), not by its name",
-    "packages that do not import are C01's business and are skipped (counted)",
+    "C01's open triggers are excluded from the domain; a package that still cannot be compiled/imported leaves every operation unreachable and is reported",
 ]
 MIN_NONTRIVIAL = {"quick": 300, "thorough": 3000}
 valid_case = specgen.valid_case
@@ -128,11 +128,17 @@ def shards(tier: str, seed: int) -> list[dict]:
     return [{"seed": seed * 1000 + i, "n": per} for i in range(n_sh)]
 
 
+def _role(rel: str) -> str:
+    from .c01 import role_of
+
+    return role_of(rel)
+
+
 def run_shard(shard: dict) -> dict:
     from .. import runner
 
     col = Collector()
-    gate = specgen.Gate(domain.excluded("C01", "C07"))
+    gate = specgen.Gate(domain.excluded("C01", "C07", "C04"))  # C04: calls that cannot be made (non-string header values) would leave the package undecided
     cases = hyp.draw_cases(specgen.cases(gate, max_schemas=2, max_ops=5, min_ops=1), shard["n"], shard["seed"])
     col.excluded.update(gate.excluded)
     for i, case in enumerate(cases):
@@ -142,13 +148,16 @@ def run_shard(shard: dict) -> dict:
                 col.rejected += 1
                 col.record(case, [], False, ["rejected_visibly"])
                 continue
-            if genrun.compile_all(res):
-                col.classes["skipped_c01_compile"] += 1
+            bad = genrun.compile_all(res)
+            if bad:
+                # C01's open triggers are excluded from this domain, so a package that cannot be loaded here leaves every operation
+                # unreachable for a reason nobody has listed: reported (as C01 would)
+                col.record(case, [Violation(("package_unusable_operations_unreachable", "compile", _role(bad[0][0])), f"{bad[0][0]}: {bad[0][1]}"[:300])], nontrivial(case["spec"]), ["package_unusable"])
                 continue
             try:
                 viols = check(res, case)
             except (ImportError, SyntaxError, NameError) as e:
-                col.classes["skipped_c01_import"] += 1
+                col.record(case, [Violation(("package_unusable_operations_unreachable", type(e).__name__, "import"), f"{e!r}"[:300])], nontrivial(case["spec"]), ["package_unusable"])
                 continue
             labs = [f"naming_{case['cfg']['naming']}", f"fmt_{case['cfg']['fmt']}"]
             if viols and viols[0].sig == ("__unprobed__",):
